@@ -1,5 +1,6 @@
 // GENERATED FILE - built by /verif/tools/extract.py from /repo's working tree. Do not edit.
 #![feature(sized_hierarchy)]
+#![feature(allocator_api)]
 #![allow(unused_imports, unused_variables, dead_code, unused_mut, unused_parens)]
 use vstd::prelude::*;
 use core::cmp::Ordering;
